@@ -14,6 +14,8 @@
 (*         active amplitudes, ascending in mu, one entry (id) per active   *)
 (*         amplitude (mu = 0 for every "konly" amplitude)                  *)
 (*   s     positive scale applied to B (load / mass scaling): mu_i = s*sp_i*)
+(*   zs    the amplitudes whose B column is not null but sums to zero      *)
+(*         (only the dense frequency path looks at column sums)            *)
 (* Abstract eigenvector = the id of the spectrum entry it belongs to; a    *)
 (* stored vector matrix is [nr, src, colid]: nr rows, column c holds the   *)
 (* eigenvector of id colid[c], row r holds its component of amplitude      *)
@@ -45,12 +47,14 @@ KF_C05_DenseNumExceedsSize    == "KF_C05_DenseNumExceedsSize"
 KF_C05_FallbackNumExceedsSize == "KF_C05_FallbackNumExceedsSize"
 KF_C05_PanelNumNotCapped      == "KF_C05_PanelNumNotCapped"
 KF_C05_NonPositiveTail        == "KF_C05_NonPositiveTail"
+KF_C05_ConeCylBucklingMode    == "KF_C05_ConeCylBucklingMode"
 KF_C06_SparseNumExceedsSize   == "KF_C06_SparseNumExceedsSize"
 KF_C06_ReducedDofScatter      == "KF_C06_ReducedDofScatter"
 KF_C06_RoundedSort            == "KF_C06_RoundedSort"
+KF_C06_DenseColumnSum         == "KF_C06_DenseColumnSum"
 DevC05 == {KF_C05_DenseNumExceedsSize, KF_C05_FallbackNumExceedsSize, KF_C05_PanelNumNotCapped,
-           KF_C05_NonPositiveTail}
-DevC06 == {KF_C06_SparseNumExceedsSize, KF_C06_ReducedDofScatter, KF_C06_RoundedSort}
+           KF_C05_NonPositiveTail, KF_C05_ConeCylBucklingMode}
+DevC06 == {KF_C06_SparseNumExceedsSize, KF_C06_ReducedDofScatter, KF_C06_RoundedSort, KF_C06_DenseColumnSum}
 DevNames == DevC05 \cup DevC06
 
 LbApis   == {"lb", "panel_lb", "conecyl_lb"}
@@ -80,7 +84,7 @@ NuLe(p, a, b, f) ==   \* |nu_a| <= f * |nu_b|
 NuLt(p, a, b) == ~NuLe(p, b, a, ROne)
 
 WellFormed(p, api) ==
-    /\ p.n >= 3 /\ Len(p.cls) = p.n /\ NSp(p) = Cardinality(Act(p)) /\ RSign(p.s) > 0
+    /\ p.n >= 3 /\ Len(p.cls) = p.n /\ NSp(p) = Cardinality(Act(p)) /\ RSign(p.s) > 0 /\ p.zs \subseteq Both(p)
     /\ \A i \in 1..(NSp(p)-1) : RLe(p.sp[i], p.sp[i+1])
     /\ IF IsLb(api)
        THEN /\ \A i \in 1..NSp(p) : Mu(p, i) # ROne                         \* KG - K regular on the active part
@@ -98,7 +102,8 @@ Regime(p) == Destabilising(p) /\ SubCritical(p)
 NoVec == [nr |-> 0, src |-> <<>>, colid |-> <<>>]
 InitState(p, o, dev) ==
     [p |-> p, o |-> o, dev |-> dev, pc |-> "start", k |-> 0, path |-> "none", used |-> <<>>,
-     rrows |-> <<>>, ret |-> <<>>, vals |-> <<>>, vec |-> NoVec, exc |-> "", at |-> "", trail |-> <<>>]
+     rrows |-> <<>>, ret |-> <<>>, vals |-> <<>>, vec |-> NoVec, exc |-> "", at |-> "", trail |-> <<>>,
+     unspec |-> FALSE]     \* TRUE: a listed deviation makes the returned pairs unspecified (not eigenpairs)
 D(s, d) == d \in s.dev
 Raise(s, cls, where) == [s EXCEPT !.pc = "raised", !.exc = cls, !.at = where]
 Terminal(s) == s.pc \in {"done", "raised"}
@@ -131,8 +136,11 @@ DoTrySparse(s) ==
 (* remove_null_cols(K, B): columns of the FIRST matrix (K) with a stored non-zero; dense freq: M.sum(axis=0) != 0 *)
 WhichMatrix(s) == IF s.o.api \in FreqApis /\ ~s.o.sparse THEN "B" ELSE "K"
 DoRemoveNull(s) ==
-    LET u == AscSeq(IF WhichMatrix(s) = "K" THEN Act(s.p) ELSE Both(s.p), s.p.n)
-    IN [s EXCEPT !.used = u, !.rrows = u, !.pc = IF ReducedRun(s) THEN "take" ELSE "solve"]
+    LET \* today the dense frequency path keeps the amplitudes with M.sum(axis=0) != 0: a mass column that sums
+        \* to zero is taken for a null one and the amplitude is clamped (the pairs are then not those of (K, M))
+        lost == IF WhichMatrix(s) = "B" /\ D(s, KF_C06_DenseColumnSum) THEN s.p.zs ELSE {}
+        u == AscSeq((IF WhichMatrix(s) = "K" THEN Act(s.p) ELSE Both(s.p)) \ lost, s.p.n)
+    IN [s EXCEPT !.used = u, !.rrows = u, !.unspec = lost # {}, !.pc = IF ReducedRun(s) THEN "take" ELSE "solve"]
 
 (* -------------------------------- TakeVW ------------------------------- *)
 (* reduced_dof: take = column_stack((i[1::3], i[2::3])).flatten(): the 2nd and 3rd amplitude of every triple *)
@@ -225,12 +233,18 @@ DoSolve(s, ret) ==
         sv == Solver(s)
     IN IF sv \in {"eigsh", "eigs"} /\ kk <= 0 THEN Raise(s, "ValueError", "SolveReduced")
        ELSE IF (sv = "eigsh" /\ kk >= m) \/ (sv = "eigs" /\ kk >= m - 1) THEN Raise(s, "TypeError", "SolveReduced")
-       ELSE LET ids == IF SpectrumKnown(s) THEN ret ELSE Ev([j \in 1..(IF sv \in {"eigsh","eigs"} THEN kk ELSE m) |-> 0])
+       ELSE LET \* ConeCyl.lb, fallback: a failed Cayley run is retried with mode='buckling', which needs A = KG positive
+                \* definite; with an indefinite KG the pairs handed back are not eigenpairs (ids 0 = unspecified)
+                garbage == /\ D(s, KF_C05_ConeCylBucklingMode) /\ s.o.api = "conecyl_lb"
+                           /\ s.path = "sparseFallback" /\ ~SelectionAssumed(s.p)
+                ids == IF SpectrumKnown(s) /\ ~garbage /\ ~s.unspec THEN ret ELSE Ev([j \in 1..(IF sv \in {"eigsh","eigs"} THEN kk ELSE m) |-> 0])
             IN IF s.path = "sparse" /\ IsLb(s.o.api)
                THEN [s EXCEPT !.ret = ids, !.vals = Ev([j \in 1..Len(ids) |-> [id |-> ids[j], form |-> FirstForm(s)]]),
+                              !.unspec = s.unspec \/ garbage,
                               !.vec = [nr |-> s.p.n, src |-> Ev([r \in 1..s.p.n |-> r]), colid |-> ids],
                               !.pc = "xform"]
                ELSE [s EXCEPT !.ret = ids, !.vals = Ev([j \in 1..Len(ids) |-> [id |-> ids[j], form |-> FirstForm(s)]]),
+                              !.unspec = s.unspec \/ garbage,
                               !.pc = "scatter"]
 
 (* ------------------------------- Scatter ------------------------------- *)
@@ -377,7 +391,7 @@ NPos(p) == Cardinality(Negs(p))
 (* returned modes are zero off the active amplitudes, and every active amplitude got its own component back *)
 ZeroOffActive(s) ==
     Finished(s) => /\ \A r \in 1..s.vec.nr : s.vec.src[r] # 0 => s.vec.src[r] = r /\ (r - s.o.pos) \in Act(s.p)
-                   /\ ~ReducedRun(s) => \A a \in Act(s.p) : s.vec.src[a + s.o.pos] = a + s.o.pos
+                   /\ ~ReducedRun(s) => \A a \in Act(s.p) : s.vec.src[a + s.o.pos] = a + s.o.pos \/ (s.unspec /\ a \in s.p.zs)
                    /\ ReducedRun(s) => \A j \in 1..Len(s.rrows) : s.vec.src[s.rrows[j]] = s.rrows[j]
 (* value c and column c belong to the same eigenpair, and the value has been fully transformed *)
 Pairing(s) ==
@@ -419,6 +433,7 @@ PathsAgree(s) ==
        /\ (IF IsLb(s.o.api) THEN Regime(s.p) ELSE s.o.sort)) =>
         LET d == Outcome(s.p, [s.o EXCEPT !.sparse = FALSE, !.reduced = FALSE], s.dev)
         IN Finished(d) => \/ Prefix(Claimed(s), Claimed(d))
+                          \/ d.unspec
                           \/ ~IsLb(s.o.api) /\ D(s, KF_C06_RoundedSort) /\ Collision(s.p)
 (* scaling B by t divides lambda by t (omega^2 by t): checked on the numbers *)
 LamOrOm2(s, id) == LET m == Mu(s.p, id) IN IF IsLb(s.o.api) THEN RNeg(RInv(m)) ELSE RInv(m)
